@@ -280,6 +280,7 @@ type Exec struct {
 	curProto    *protoDecl
 	curProtoOrg *origin
 	curAtomicOp string
+	protoBefore *State
 	spawned  []string
 	frameLocs  map[string][]Term // modifies clause resolved at entry: array -> locations
 	frameWhole map[string]bool
